@@ -309,17 +309,24 @@ def jump_classification(f, case, site=None):
         if j in sites and sites[j][0] == 'return' and sites[j][2]:
             return key(j, 'outer-levels-rebind')
         return None
-    # no unbound read in the window: an assignment to a variable that is unbound (CPython: fine; compiled: decref of
-    # NULL) inside an outer `finally` clause the jump is running
+    # no unbound read in the window: an assignment to a variable that is unbound at that point (CPython: fine; compiled:
+    # decref of NULL) - inside an outer `finally` clause the jump is running, or the variable was unbound by a `del` in
+    # an outer `finally` clause of a break/continue taken before
     for i in range(wstart, wend):
         if ev[i][0] != 'line':
             continue
         for v, k in bl.get(ev[i][1], []):
             if k != 'bind':
                 continue
+            cause, is_del = last_binding(v, i)
+            if not is_del:
+                continue
             j = last_jump(i)
-            if j in sites and ev[i][1] in outer_finally_lines(fnode, j, sites[j][0]) and last_binding(v, i)[1]:
+            if j in sites and ev[i][1] in outer_finally_lines(fnode, j, sites[j][0]):
                 return key(j, 'outer-levels-assign-unbound')
+            j = last_jump(cause)
+            if j in sites and sites[j][0] != 'return' and ev[cause][1] in outer_finally_lines(fnode, j, sites[j][0]):
+                return key(j, 'outer-levels-rebind')
     return None
 
 
@@ -466,7 +473,7 @@ def main(ck):
                 for b in range(2 ** f['nbits']):
                     cases.append({'f': f['name'], 'a': '(%d,)' % b, 't': tag})
             res = diff.run_cases(tree, d, n, cases, ref=inf['src'], compare=COMPARE, tagdir='run_%s_%s' % (cfg, n),
-                                 timeout=3600, nproc=4)
+                                 timeout=3600, nproc=4, max_restarts=120)
             total_n += res.n
             total_distinct += res.distinct
             samples.extend(res.samples[:1])
